@@ -22,6 +22,7 @@ for d in sorted(glob.glob(os.path.join(root, "seeded", "C*-*"))):
         results[name] = {"property": prop, "obsolete": meta["obsolete"]}
         print(name, "obsolete (no longer breaks the property on the current tree)")
         continue
+    beyond = meta.get("beyond_the_monitor")
     a = subprocess.run(["git", "-C", "/repo", "apply", os.path.join(d, "patch.diff")], capture_output=True, text=True)
     if a.returncode != 0:
         results[name] = {"property": prop, "error": "patch does not apply: " + a.stderr.strip()}
@@ -35,7 +36,11 @@ for d in sorted(glob.glob(os.path.join(root, "seeded", "C*-*"))):
     viol = [l for l in p.stdout.splitlines() if l.startswith("VIOLATION")]
     results[name] = {"property": prop, "tier": tier, "exit": p.returncode, "detected": p.returncode == 1 and len(viol) > 0,
                      "violation_lines": len(viol), "first_violations": sorted(set(re.sub(r".*#\s*", "", l) for l in viol))[:4]}
-    print(name, "detected" if results[name]["detected"] else "MISSED", results[name]["first_violations"][:1])
+    if beyond:
+        results[name]["beyond_the_monitor"] = beyond
+    print(name, "detected" if results[name]["detected"] else ("not detected (beyond the monitor, see meta.json)" if beyond else "MISSED"), results[name]["first_violations"][:1])
 json.dump(results, open(rf, "w"), indent=1, sort_keys=True)
-missed = [k for k, v in results.items() if not v.get("detected") and not v.get("obsolete")]
+missed = [k for k, v in results.items() if not v.get("detected") and not v.get("obsolete") and not v.get("beyond_the_monitor")]
+beyond = [k for k, v in results.items() if not v.get("detected") and v.get("beyond_the_monitor")]
+print("not detected and recorded as beyond the monitor:", beyond)
 print("seeded changes:", len(results), "missed:", missed)
